@@ -899,8 +899,9 @@ func (s *UploadStream) Suspend() (int64, error) {
 		return 0, gridfs.ErrStreamClosed
 	}
 
-	// upload buffered data
-	if s.bufLen > 0 {
+	// upload buffered data; also runs with an empty buffer to ensure a marker
+	// has been created, otherwise the upload cannot be resumed
+	if s.bufLen > 0 || s.marker == nil {
 		err := s.upload(false)
 		if err != nil {
 			return 0, err
